@@ -15,6 +15,7 @@ import (
 	"math"
 	"os"
 	"strings"
+	"time"
 
 	"verif/lib/dbh"
 	"verif/lib/kvseq"
@@ -127,11 +128,16 @@ func main() {
 	}
 	base := r.Scratch()
 	total := r.RunSharded(vr.Workers(), func(sh vr.ShardInfo, p *vr.Partial) {
+		start, budget := time.Now(), r.Remaining()
 		for ci, c := range cfgs {
 			prm := params(c, fmt.Sprintf("%s/s%d-c%d", base, sh.Index, ci), true)
 			sub := vr.NewPartial()
+			// time slicing: configuration i may run until (i+1)/n of the budget is used, so a slow
+			// early configuration cannot starve the later ones (unused time carries over)
+			slice := start.Add(budget * time.Duration(ci+1) / time.Duration(len(cfgs)))
+			expired := func() bool { return r.Expired() || time.Now().After(slice) }
 			seqmc.Explore(seqmc.Config{New: func() seqmc.Instance { return kvseq.New(prm) }, MaxDepth: c.Depth,
-				Shard: sh, Expired: r.Expired,
+				Shard: sh, Expired: expired,
 				OnLeaf: func(path []string, _ seqmc.Instance) { classifyPath(path, sub) }}, sub)
 			for i := range sub.Violations {
 				v := &sub.Violations[i]
@@ -141,6 +147,9 @@ func main() {
 				}
 				v.Replay = fmt.Sprintf(`{"Config":%q,"Path":%s}`, c.Name, v.Replay)
 				v.Desc = "config=" + c.Name + " " + v.Desc
+			}
+			if sub.TimedOut {
+				p.Add("incomplete:"+c.Name, 1)
 			}
 			p.Merge(sub)
 		}
@@ -174,7 +183,8 @@ func main() {
 		Outcomes:    states,
 		Bounds:      map[string]any{"configs": names(cfgs), "probe_versions": "1,2,3,4,max", "quick": r.Quick()},
 		Extra: map[string]any{"pruned_by_state_key": total.Counters["pruned"], "noop_cut": total.Counters["cut_noop"],
-			"replayed_steps": total.Counters["replayed_steps"], "max_depth": total.Counters["max_depth"], "ops_applied": opCounts(total),
+			"incomplete_configs_workers": prefixed(total, "incomplete:"),
+			"replayed_steps":             total.Counters["replayed_steps"], "max_depth": total.Counters["max_depth"], "ops_applied": opCounts(total),
 			"leaf_paths_with_same_version_rewrite":  total.Counters["leaf:same-version-rewrite"],
 			"leaf_paths_with_out_of_order_versions": total.Counters["leaf:out-of-order"],
 			"leaf_paths_memtable_only":              total.Counters["leaf:no-maintenance"],
@@ -290,6 +300,17 @@ func replay(r *vr.Run, cfgs []config, name string, path []string) {
 		r.Finish(vr.Coverage{Level: "model_checking", Evaluations: 1, Distinct: 2, States: 1, Transitions: int64(len(path)), Rule: "replay", Samples: []any{path}})
 	}
 	vr.Fatalf("unknown config %q", name)
+}
+
+// prefixed: counters with the given prefix (here: how many workers left a configuration incomplete).
+func prefixed(p *vr.Partial, prefix string) map[string]int64 {
+	out := map[string]int64{}
+	for k, v := range p.Counters {
+		if strings.HasPrefix(k, prefix) {
+			out[k[len(prefix):]] = v
+		}
+	}
+	return out
 }
 
 func opCounts(p *vr.Partial) map[string]int64 {
